@@ -404,7 +404,7 @@ def run(ck, F):
             n_groups += 1
             gname = _gname(g)
             short = fn.rsplit("::", 1)[-1]
-            is_env = fn == A.envelope_emitter(X)
+            is_env = fn == A.envelope_emitter(X) or A.envelope_emitter(X) in tuple(getattr(g.open, "chain", ()) or ())   # (also when it is read in its caller's stream)
             ns_keys = []
             for ev in attrs:
                 a = parse_attr(ev)
